@@ -181,6 +181,8 @@ def eq(a: V, b: V):
         tb = SeqOf(elem).pack(b)
         return ta == tb
     for x, y in ((a, b), (b, a)):
+        if isinstance(x, VDict) and isinstance(y, VConst) and isinstance(y.py, dict):
+            return x.t == ValSort.dv(to_val(y))  # symbolic dict == constant dict (module-level table)
         if isinstance(x, VDict) and isinstance(y, VRec) and y.ty.as_dict and not getattr(y.ty, "optkeys", False):
             from .ty import recdict_term
             return x.t == recdict_term(y)  # symbolic dict == dict display with constant keys
@@ -258,6 +260,12 @@ def merge(cond, a: V, b: V) -> V:
         return VOpaque(z3.If(cond, a.t, b.t), a.ty)
     if isinstance(a, VDict) and isinstance(b, VDict):
         return VDict(z3.If(cond, a.t, b.t))
+    if (isinstance(a, VDict) and isinstance(b, VRec) and b.ty.as_dict) or (isinstance(b, VDict) and isinstance(a, VRec) and a.ty.as_dict):
+        # a symbolic dict and a dict display with constant keys (e.g. `dict(m) if ... else {}`): both as Array terms
+        from .ty import recdict_term
+        ta = a.t if isinstance(a, VDict) else recdict_term(a)
+        tb = b.t if isinstance(b, VDict) else recdict_term(b)
+        return VDict(z3.If(cond, ta, tb))
     if isinstance(a, VAny) or isinstance(b, VAny):
         return VAny(z3.If(cond, to_val(a), to_val(b)))
     if isinstance(a, VTuple) and isinstance(b, VTuple) and len(a.items) == len(b.items):
